@@ -221,6 +221,13 @@ func c07(r *core.Report) {
 			r.Bad(fmt.Sprintf("orand:early-error#%d", ke), p.Pos(ret.Pos()), "ValidateSecurityRequirements returns an error before the loop over the alternatives has finished: one alternative that cannot be satisfied (an undeclared scheme, say) fails the whole list although another alternative is accepted by the callback, which is then never asked")
 			return true
 		})
+		ast.Inspect(vs.Body, func(n ast.Node) bool {
+			if br, ok := n.(*ast.BranchStmt); ok && (br.Tok == token.BREAK || br.Tok == token.GOTO) {
+				ke++
+				r.Bad(fmt.Sprintf("orand:early-error#%d", ke), p.Pos(br.Pos()), "ValidateSecurityRequirements leaves the loop over the alternatives early (break): the alternatives after the one that failed this way are never tried, although one of them may be accepted by the callback")
+			}
+			return true
+		})
 		k := 0
 		ast.Inspect(vs.Body, func(n ast.Node) bool {
 			ret, ok := n.(*ast.ReturnStmt)
